@@ -681,7 +681,11 @@ pixman_image_composite32 (pixman_op_t      op,
 	&imp, &func);
 
     info.src_image = src;
-    info.mask_image = mask;
+    /* An opaque mask was left out of the fast path lookup above; leave it
+     * out for the chosen routine too, so that the general path does not pick
+     * its pipeline (8 bit or float) from a mask no other path looks at.
+     */
+    info.mask_image = (mask_format == PIXMAN_null) ? NULL : mask;
     info.dest_image = dest;
 
     pbox = pixman_region32_rectangles (&region, &n);
